@@ -19,7 +19,6 @@ module BufM = struct
         let ((s', visited), e) =
           if bounded then Buffer.buffer_range s (nat_of_int c) script else Buffer.pkg_range s (nat_of_int c) script in
         (s', RangeOut (visited, e))
-  (* the cleaner may run (once or twice) between any two operations *)
   (* the cleaner and the shutdown watchers may run (in any order, a few times) between any two operations *)
   let internal s =
     let seen = ref [s] in
@@ -32,6 +31,59 @@ module BufM = struct
       frontier := !next
     done;
     L.filter (fun x -> x <> s) (L.rev !seen)
+  (* Range is a composite of Get / Diff / Commit / Rollback performed by one goroutine: the cleaner and the watchers may
+     run between its sub-operations. This explores those interleavings using ONLY the extracted atomic [Buffer.step];
+     the control flow mirrors Coq's [range_loop], and the interleaving-free path is checked against the extracted
+     [buffer_range]/[pkg_range] on every case (see [step_nd]). *)
+  let range_nd (s : st) (c : int) (bounded : bool) (script : Buffer.cb list) : (st * out) list =
+    let cn = nat_of_int c in
+    let results = ref [] in
+    let add s visited e = let r = (s, RangeOut (L.rev visited, e)) in if not (L.mem r !results) then results := r :: !results in
+    let with_internal s k = L.iter k (s :: internal s) in
+    let rollback_then s visited e =
+      with_internal s (fun s1 -> let (s2, _) = Buffer.step s1 (Buffer.ORollback cn) in add s2 visited e) in
+    let rec loop fuel s script visited =
+      if fuel = 0 then add s visited Buffer.ReFuel else
+      with_internal s (fun s0 ->
+        let (s1, r) = Buffer.step s0 (Buffer.OGet cn) in
+        match r with
+        | Buffer.RVal v ->
+            let visited' = v :: visited in
+            let commit_then s k_ok =
+              with_internal s (fun sa ->
+                let (s2, r2) = Buffer.step sa (Buffer.OCommit cn) in
+                match r2 with
+                | Buffer.ROk -> k_ok s2
+                | _ -> rollback_then s2 visited' Buffer.ReErr) in
+            (match script with
+             | Buffer.CbPanic :: _ -> rollback_then s1 visited' Buffer.RePanic
+             | Buffer.CbFalse :: _ | [] -> commit_then s1 (fun s2 -> add s2 visited' Buffer.ReNil)
+             | Buffer.CbTrue :: script' ->
+                 if bounded then
+                   with_internal s1 (fun sd ->
+                     let more = (match snd (Buffer.step sd (Buffer.ODiff cn)) with
+                                 | Buffer.RDiff (n, true) -> int_of_z n > 0 | _ -> false) in
+                     commit_then sd (fun s2 -> if more then loop (fuel - 1) s2 script' visited' else add s2 visited' Buffer.ReNil))
+                 else commit_then s1 (fun s2 -> loop (fuel - 1) s2 script' visited'))
+        | _ -> rollback_then s1 visited Buffer.ReErr) in
+    let fuel = 3 + L.length (Buffer.log s) in
+    (if bounded then begin
+       match Buffer.getc s cn with
+       | None -> add s [] Buffer.ReErr
+       | Some _ ->
+           (match snd (Buffer.step s (Buffer.ODiff cn)) with
+            | Buffer.RDiff (n, true) when int_of_z n > 0 -> loop fuel s script []
+            | _ -> add s [] Buffer.ReNil)
+     end else loop fuel s script []);
+    !results
+  let step_nd s o =
+    match o with
+    | Op _ -> [step s o]
+    | Range (c, bounded, script) ->
+        let nd = range_nd s c bounded script in
+        let det = step s o in
+        if not (L.mem det nd) then failwith "buffer adapter: interleaving-free Range path differs from the extracted range_loop";
+        nd
   let rec take n l = if n = 0 then [] else match l with [] -> [] | x :: t -> x :: take (n - 1) t
   let op_of_ints l =
     let n = nat_of_int in
@@ -61,7 +113,7 @@ module BufM = struct
         100 :: ei :: L.length visited :: L.map int_of_z visited
   let blocked = function Out Buffer.REmpty -> true | _ -> false
 end
-module BufC = Check (BufM)
+module BufC = CheckND (BufM)
 
 let init () =
   register "buffer" (fun kind id rest -> BufC.handle kind id rest) BufC.summary;
